@@ -118,7 +118,7 @@ class Runner:
                 f.write("".join(s + "\n" for s in srcs))
         return d
 
-    def run(self, case, tag, keep=False):
+    def run(self, case, tag, keep=False, limit=6):
         """Returns dict(trace=str, fs=(src states, dst states), rc=, stderr=, dir=)."""
         mode = case.mode
         d = self.setup(mode, tag)
@@ -134,7 +134,7 @@ class Runner:
         env = {"LC_ALL": "C", "PATH": os.environ.get("PATH", "/usr/bin:/bin"), "HOME": d, "TMPDIR": d}
         with open(os.path.join(d, "out.bin"), "wb") as out, open(os.path.join(d, "err.txt"), "wb") as err:
             try:
-                p = subprocess.run(["timeout", "-k", "2", "6"] + cmd, cwd=d, env=env, stdin=subprocess.DEVNULL,
+                p = subprocess.run(["timeout", "-k", "2", str(limit)] + cmd, cwd=d, env=env, stdin=subprocess.DEVNULL,
                                    stdout=out, stderr=err, timeout=60)
                 rc = p.returncode
             except subprocess.TimeoutExpired:
@@ -397,13 +397,15 @@ def run_v(ctx):
             ctx.violation("fs:source-damaged:%s" % case.mode.name, "source content changed: %s %s" % (case.label, res["fs"]),
                           dict(kind="run", mode=case.mode.name, pert=case.label))
         if res["rc"] in (124, 137) and case.kind != "kill":
+            res = R.run(case, "retry-%d" % stats["runs"], limit=25)      # reported only if it repeats, alone
+        if res["rc"] in (124, 137) and case.kind != "kill":
             what = case.label.split("(")[-1].replace(")=", "-") if case.kind == "err" else case.kind
             hkey = "run:hang:%s:%s" % (case.mode.name, what)
             if hkey in seen:
                 return
             seen.add(hkey)
             ctx.violation(hkey,
-                          "xz did not terminate within 6 s (busy loop or blocked): %s; strace -e inject=%s" %
+                          "xz did not terminate within 6 s and again 25 s (busy loop or blocked): %s; strace -e inject=%s" %
                           (case.label, case.inject),
                           dict(kind="run", mode=case.mode.name, pert=case.label, inject=case.inject, shim=case.shim,
                                flags=case.mode.flags))
@@ -472,6 +474,12 @@ def run_v(ctx):
     ctx.log("validated %d recorded executions (%d events): rejected=%d" %
             (len(hist), sum(len(e) for _, e in hist), rej))
     ctx.extra["xz_runs"] = stats
+    hist_ev = {}
+    for _, evs in hist:
+        for e in evs:
+            k = e["e"] + ("/" + str(e.get("res", e.get("k"))) if ("res" in e or "k" in e) else "")
+            hist_ev[k] = hist_ev.get(k, 0) + 1
+    ctx.extra["validated_event_kinds"] = dict(sorted(hist_ev.items()))
     ctx.assumptions += ["regular files on a local file system: read/write/close/fsync do not block, so a signal takes "
                         "effect when a system call returns (poll()/EAGAIN paths of io_wait are not driven)",
                         "strace injects a failure instead of executing the call; SIGKILL on entry stands for process death",
